@@ -350,10 +350,16 @@ theorem compress_sound (axis : Option Int) (x c : ITy) (vx vc : RtVal) (k : Nat)
     (w : List RtVal) (hi : inferCompress axis x c = .ok outs) (hcx : conforms vx x = true)
     (_hcc : conforms vc c = true) (hr : rtCompress axis k vx = some w) : conformsAll w outs = true := by
   obtain ⟨xe, xs⟩ := vx
+  have huntyped : ∀ w, rtCompress axis k ⟨xe, xs⟩ = some w → conformsAll w [none] = true := by
+    intro w hw
+    unfold rtCompress at hw
+    split at hw
+    · simp at hw; subst hw; simp [conformsAll, conforms]
+    · split at hw <;> simp at hw; subst hw; simp [conformsAll, conforms]
   rcases x with _ | ⟨e, s⟩
-  · simp [inferCompress] at hi
+  · simp only [inferCompress, Res.ok.injEq] at hi; subst hi; exact huntyped w hr
   rcases c with _ | ct
-  · simp [inferCompress] at hi
+  · simp only [inferCompress, Res.ok.injEq] at hi; subst hi; exact huntyped w hr
   simp only [conforms, Bool.and_eq_true, beq_iff_eq] at hcx
   obtain ⟨hex, hsx⟩ := hcx
   unfold inferCompress at hi
